@@ -181,3 +181,109 @@ Proof.
   assert (Hg : gs_of s i = b_gs ccmd b) by (unfold gs_of; rewrite Fi; reflexivity).
   rewrite Hg. cbn. rewrite E'. reflexivity.
 Qed.
+
+Lemma truthful_apply : forall base s i s' ok,
+    wf s -> canon base s -> truthful base s -> c_applyBlock s i = Ok (s', ok) -> truthful base s'.
+Proof.
+  intros base s i s' ok W C T H. destruct ok.
+  - pose proof (staticInv_apply _ _ _ _ _ (eq_refl : staticInv (map (static ccmd) (blocks _ _ s)) s) H) as HS.
+    unfold staticInv in HS.
+    destruct (apply_ok_core _ _ _ W H) as (_ & _ & _ & HR & _).
+    unfold c_applyBlock, applyBlock in H.
+    destruct (find ccmd (blocks pstate ccmd s) i) as [b|] eqn:Fi; [|discriminate].
+    destruct (N.eqb i (root pstate ccmd s)) eqn:R; [discriminate|]. apply N.eqb_neq in R.
+    destruct (find ccmd (blocks pstate ccmd s) (b_par ccmd b)) as [pb|] eqn:Fp; [|discriminate].
+    destruct (negb (b_act ccmd pb)) eqn:Pa; [discriminate|]. apply negb_false_iff in Pa.
+    destruct (b_act ccmd b); [discriminate|].
+    destruct (child_active ccmd (blocks pstate ccmd s) i); [discriminate|].
+    destruct (b_fc ccmd b); [discriminate|].
+    destruct (is_failed ccmd b); [discriminate|].
+    destruct (N.ltb (b_lvl ccmd b) L_CONNECTED); [discriminate|].
+    destruct (gsexec pstate ccmd cexec cunexec [] (b_gs ccmd b) (pst pstate ccmd s)) as [p' ok] eqn:E.
+    destruct ok; cbn [negb] in H; [|destruct (invalidate_pop pstate ccmd _ i); cbn in H; [inversion H|discriminate]].
+    destruct (N.ltb (b_lvl ccmd b) _ && N.ltb (b_lvl ccmd pb) _); [discriminate|].
+    inversion H; subst s'; clear H.
+    intros b' Hin Hl. cbn [blocks] in Hin. apply in_upd in Hin. destruct Hin as (b0 & Hin0 & ->).
+    rewrite (depth_static _ _ _ HS HR), (bgs_static _ _ _ _ HS).
+    destruct (N.eqb (b_id ccmd b0) i) eqn:E0.
+    + apply N.eqb_eq in E0. cbn [b_id set_act raise_lvl]. rewrite E0.
+      assert (b0 = b).
+      { destruct C as [_ ND]. pose proof (find_in_blocks _ _ ND Hin0) as F. rewrite E0, Fi in F. inversion F. reflexivity. }
+      subst b0. cbn [b_lvl set_act raise_lvl] in Hl.
+      destruct (N.leb L_FULL (b_lvl ccmd b)) eqn:Lb.
+      * destruct (T b Hin0 Lb) as (pp & Hp). rewrite E0 in Hp. exists pp. exact Hp.
+      * destruct (valid_upto ccmd pb L_FULL && Z.eqb (b_h ccmd b) (root_h pstate ccmd s + Z.of_N (napp pstate ccmd s))) eqn:Full.
+        -- apply andb_prop in Full. destruct Full as [Pv Hh]. apply Z.eqb_eq in Hh.
+           eapply raise_truthful; eassumption.
+        -- exfalso. apply N.leb_gt in Lb. unfold L_FULL, L_MAYBE in *.
+           destruct (N.ltb (b_lvl ccmd b) 3) eqn:L3; [cbn in Hl; discriminate|].
+           apply N.ltb_ge in L3. apply N.leb_le in Hl. lia.
+    + destruct (T b0 Hin0 Hl) as (pp & Hp). exists pp. exact Hp.
+  - pose proof H as H0. apply c_applyBlock_atomic in H. destruct H as (_ & _ & _ & HR & Hs).
+    eapply truthful_ext; [apply static_strip_eq; exact Hs|exact HR| |exact T].
+    intros b' Hin Hl.
+    assert (Hm : In (strip ccmd b') (map (strip ccmd) (blocks _ _ s))) by (rewrite <- Hs; apply in_map; exact Hin).
+    apply in_map_iff in Hm. destruct Hm as (b0 & Hst & Hin0). exists b0. split; [exact Hin0|].
+    assert (b_id ccmd b0 = b_id ccmd b' /\ b_lvl ccmd b0 = b_lvl ccmd b') by (split; [exact (f_equal (b_id ccmd) Hst)|exact (f_equal (b_lvl ccmd) Hst)]).
+    destruct H as [A B]. split; [exact A|rewrite B; exact Hl].
+Qed.
+
+Lemma truthful_unapply : forall base s i s',
+    truthful base s -> c_unapplyBlock s i = Ok s' -> truthful base s'.
+Proof.
+  intros base s i s' T H.
+  pose proof (staticInv_unapply _ _ _ _ (eq_refl : staticInv (map (static ccmd) (blocks _ _ s)) s) H) as HS.
+  unfold staticInv in HS.
+  unfold c_unapplyBlock, unapplyBlock in H.
+  destruct (find ccmd (blocks pstate ccmd s) i) as [b|]; [|discriminate].
+  destruct (N.eqb i (root pstate ccmd s)); [discriminate|].
+  destruct (negb (b_act ccmd b)); [discriminate|].
+  destruct (find ccmd (blocks pstate ccmd s) (b_par ccmd b)) as [pb|]; [|discriminate].
+  destruct (negb (b_act ccmd pb)); [discriminate|].
+  destruct (child_active ccmd (blocks pstate ccmd s) i); [discriminate|].
+  destruct (N.eqb (napp pstate ccmd s) 0); [discriminate|].
+  inversion H; subst s'; clear H.
+  eapply truthful_ext; [exact HS|reflexivity| |exact T].
+  intros b' Hin Hl. cbn [blocks] in Hin. apply in_upd in Hin. destruct Hin as (b0 & Hin0 & ->).
+  exists b0. split; [exact Hin0|]. destruct (N.eqb (b_id ccmd b0) i); split; try reflexivity; exact Hl.
+Qed.
+
+(** the three invariants together are preserved by every block-level step, hence by every walk *)
+Definition tinv (base : pstate) (s : cst) : Prop := wf s /\ canon base s /\ truthful base s.
+Lemma tinv_apply : forall base s i s' ok, tinv base s -> c_applyBlock s i = Ok (s', ok) -> tinv base s'.
+Proof.
+  intros base s i s' ok (W & C & T) H. split; [|split].
+  - destruct ok; [exact (proj1 (apply_ok_core _ _ _ W H))|].
+    destruct (apply_fail_core _ _ _ H) as (C1 & N1 & R1 & _). unfold wf. rewrite C1, R1, N1. exact W.
+  - eapply canon_apply; eassumption.
+  - eapply truthful_apply; eassumption.
+Qed.
+Lemma tinv_unapply : forall base s i s', tinv base s -> c_unapplyBlock s i = Ok s' -> tinv base s'.
+Proof.
+  intros base s i s' (W & C & T) H. split; [|split].
+  - exact (proj1 (unapply_core _ _ _ W H)).
+  - eapply canon_unapply; eassumption.
+  - eapply truthful_unapply; eassumption.
+Qed.
+
+Lemma truthful_setState : forall base s to s' ok,
+    quiet s -> canon base s -> truthful base s -> c_setState s to = Ok (s', ok) -> truthful base s'.
+Proof.
+  intros base s to s' ok Q C T H. pose proof Q as (W & _).
+  unfold c_setState, setState in H.
+  destruct (find ccmd (blocks pstate ccmd s) (tip pstate ccmd s)) as [bt|]; [|discriminate].
+  destruct (find ccmd (blocks pstate ccmd s) to) as [b0|]; [|discriminate].
+  destruct (negb _); [discriminate|].
+  match type of H with bind ?e _ = _ => destruct e as [[s1 ok1]|] eqn:E end; cbn [bind] in H; [|discriminate].
+  assert (T1 : tinv base s1).
+  { destruct (N.eqb (tip pstate ccmd s) to); [inversion E; subst; split; [exact W|split; assumption]|].
+    exact (Inv_sm_setState pstate ccmd cexec cunexec (tinv base) (tinv_apply base) (tinv_unapply base) s _ _ s1 ok1
+             (conj W (conj C T)) E). }
+  destruct T1 as (_ & _ & T1).
+  destruct (find ccmd (blocks pstate ccmd s1) to) as [bto|]; [|discriminate].
+  destruct ok1.
+  - destruct (valid_upto ccmd bto L_FULL); inversion H; subst; clear H.
+    eapply truthful_ext; [reflexivity|reflexivity| |exact T1].
+    intros b' Hin Hl. exists b'. split; [exact Hin|split; [reflexivity|exact Hl]].
+  - destruct (negb (is_failed ccmd bto)); [discriminate|]. destruct (negb _); inversion H; subst. exact T1.
+Qed.
